@@ -91,6 +91,10 @@ type Sim struct {
 	zombies   []statedb.ChangeIterator[*Obj] // iterators created in transactions that aborted (kept reachable, not closed)
 	gcChecks int
 	gcPauses int
+	closePauses int
+	regPending  chan struct{}
+	regTick     int
+	registrations int
 	nextN   uint64
 	fp      *vkit.Hash64
 	Log     []string
@@ -729,6 +733,7 @@ func (s *Sim) RunTxn(i int) {
 		s.txnChanged[t] = working[t].Rev != t.committed.Rev
 	}
 	rtxn := wtxn.Commit()
+	s.waitRegistration()
 	s.commits++
 	for _, t := range set {
 		t.committed = working[t]
@@ -804,6 +809,8 @@ func (s *Sim) Finish(nontrivial bool) {
 	s.R.Count("change_stream_checks", int64(s.changeChecks))
 	s.R.Count("gc_checks", int64(s.gcChecks))
 	s.R.Count("gc_paused_at_afterScan", int64(s.gcPauses))
+	s.R.Count("close_paused_before_root_store", int64(s.closePauses))
+	s.R.Count("registrations_into_commit", int64(s.registrations))
 	s.R.Count("watch_handouts", int64(s.watchHandouts))
 	s.R.Count("watch_verdicts", int64(s.watchVerdicts))
 	s.R.Count("commits", int64(s.commits))
